@@ -2,6 +2,7 @@ package main
 
 import (
 	"fmt"
+	"os"
 	"go/ast"
 	"go/token"
 	"go/types"
@@ -25,15 +26,22 @@ func (fr *Frame) call(c *ssa.CallCommon, instr *ssa.Call, st *State, pos token.P
 	fr.anchoredAsserts(name, c, st, pos)
 	res := fr.call1(c, instr, st, pos)
 	if fr.top && fr.fx.contract != nil {
+		fr.ghostAnchors("call:"+name, st)
 		for _, m := range fr.fx.contract.Marks {
 			if globMatch(m.Glob, name) {
 				if fr.fx.markCnt == nil {
 					fr.fx.markCnt = map[string]int{}
 					fr.fx.marks = map[string]*State{}
+					fr.fx.markRes = map[string]SVal{}
 				}
 				fr.fx.markCnt[m.Label]++
 				if fr.fx.markCnt[m.Label] == m.N {
 					fr.fx.marks[m.Label] = st.clone()
+					var rt types.Type = c.Signature().Results()
+					if c.Signature().Results().Len() == 1 {
+						rt = c.Signature().Results().At(0).Type()
+					}
+					fr.fx.markRes[m.Label] = SVal{V: res, Ty: rt}
 				}
 			}
 		}
@@ -122,11 +130,19 @@ func (fr *Frame) staticCall(callee *ssa.Function, args, binds []Val, st *State, 
 		return v
 	}
 	ct := fx.eng.contractFor(callee)
+	lo := st.wm
 	if ct != nil && !(ct.Flags["inline"]) {
-		return fr.applyContract(ct, callee, callee.Signature, fx.eng.shortName(callee), args, binds, st, pos, instr)
+		r := fr.applyContract(ct, callee, callee.Signature, fx.eng.shortName(callee), args, binds, st, pos, instr)
+		if fr.top && instr != nil && ct.Flags["pure"] && fx.eng.isPrivateSite(instr) {
+			fx.notePrivate(st, lo, st.wm)
+		}
+		return r
 	}
 	if fx.canInline(callee) {
 		if res, ok := fx.inlineCall(fr, callee, args, binds, st); ok {
+			if fr.top && instr != nil && fx.eng.allocOnly(callee, 0) && fx.eng.isPrivateSite(instr) {
+				fx.notePrivate(st, lo, st.wm)
+			}
 			return packResults(res, callee.Signature)
 		}
 	}
@@ -414,6 +430,9 @@ func (fr *Frame) applyContract(ct *FuncContract, fn *ssa.Function, sig *types.Si
 	penv.oldEnv = oenv
 	bindResults(penv, ct, fn, sig, res)
 	for _, c := range ct.Ensures {
+		if ct.Flags["deterministic"] && !ct.Flags["reveal"] && !ct.Flags["trusted"] {
+			break // callers see a deterministic in-module function only as an uninterpreted function of its arguments
+		}
 		g, err := penv.evalBool(c.Expr)
 		if err != nil {
 			fx.unsupported = append(fx.unsupported, fmt.Sprintf("postcondition %q of %s: %v", c.Src, name, err))
@@ -507,7 +526,21 @@ func (fr *Frame) applyEffects(ct *FuncContract, fn *ssa.Function, sig *types.Sig
 		st.wm = w
 		return
 	}
-	if ct.HasMod {
+	if ct.HasMod && !ct.Flags["perwrite"] {
+		if fx.perWrite() {
+			for i, m := range ct.Modifies {
+				err := fr.modTargets(env, m, func(key string, ref Term) {
+					fx.oblige(st, "frame", "callee-writes:"+lastSeg(name)+"."+ct.ModSrc[i], fx.writeAllowed(ref, key), token.NoPos)
+				}, func(key string) {
+					if !fx.allowedWhole[key] {
+						fx.oblige(st, "frame", "callee-writes:"+lastSeg(name)+"."+ct.ModSrc[i], False, token.NoPos)
+					}
+				})
+				if err != nil {
+					fx.unsupported = append(fx.unsupported, fmt.Sprintf("modifies %q of %s: %v", ct.ModSrc[i], name, err))
+				}
+			}
+		}
 		for i, m := range ct.Modifies {
 			if err := fr.havocLoc(env, m, st); err != nil {
 				fx.unsupported = append(fx.unsupported, fmt.Sprintf("modifies %q of %s: %v", ct.ModSrc[i], name, err))
@@ -697,7 +730,9 @@ func (fr *Frame) havocKeys(name string, keys map[string]Sort, any bool, st *Stat
 		if _, ok := fx.keySort[k]; !ok {
 			fx.keySort[k] = keys[k]
 		}
+		old := fx.heapGet(st, k, fx.keySort[k])
 		st.heap[k] = fx.ctx.Fresh("Hcall."+k, fx.keySort[k])
+		fx.preserveFacts(k, st.heap[k], old, st.priv)
 	}
 	w := fx.ctx.Fresh("wm", SInt)
 	fx.ctx.Assert(Ge(w, st.wm))
@@ -755,7 +790,7 @@ func (fr *Frame) builtin(b *ssa.Builtin, c *ssa.CallCommon, instr *ssa.Call, st 
 		dom := fx.heapGet(st, dk, ArraySort(SInt, domS))
 		was := And(Not(Eq(m, Nil)), Select(Select(dom, m, domS), k, SBool))
 		ln := fx.mapLen(st, m)
-		fx.frameWriteGuarded(st, m, was, pos, fr)
+		fx.frameWriteGuarded(st, m, dk, was, pos, fr)
 		fx.mapLenSet(st, m, Ite(was, Sub(ln, Int(1)), ln))
 		fx.heapSet(st, dk, Ite(Eq(m, Nil), dom, Store(dom, m, Store(Select(dom, m, domS), k, False))))
 		return Val{Known: true}
@@ -766,7 +801,7 @@ func (fr *Frame) builtin(b *ssa.Builtin, c *ssa.CallCommon, instr *ssa.Call, st 
 		inner := ArraySort(SInt, es)
 		key := elemKey(es)
 		arr := fx.heapGet(st, key, ArraySort(SInt, inner))
-		fx.frameWrite(st, SlBase(d), "copy", pos, fr)
+		fx.frameWrite(st, SlBase(d), key, pos, fr)
 		fx.heapSet(st, key, Store(arr, SlBase(d), fx.ctx.Fresh("copy", inner)))
 		fx.note("builtin copy: destination elements havoced")
 		r := fx.ctx.Fresh("copied", SInt)
@@ -803,13 +838,13 @@ func (fr *Frame) builtin(b *ssa.Builtin, c *ssa.CallCommon, instr *ssa.Call, st 
 	return Val{Known: true}
 }
 
-func (fx *FnExec) frameWriteGuarded(st *State, ref Term, guard Term, pos token.Pos, fr *Frame) {
-	if fx.contract != nil && fx.contract.Flags["pure"] && !fx.contract.Flags["trusted"] {
+func (fx *FnExec) frameWriteGuarded(st *State, ref Term, key string, guard Term, pos token.Pos, fr *Frame) {
+	if fx.perWrite() {
 		label := "fresh-write"
 		if fr != nil && fr.site != "" {
 			label += "@" + fr.site
 		}
-		fx.oblige(st, "frame", label+":"+fx.eng.snippetNode(pos, fx.fn, nil), Implies(guard, Gt(ref, fx.entry.wm)), pos)
+		fx.oblige(st, "frame", label+":"+fx.eng.snippetNode(pos, fx.fn, nil), Implies(guard, fx.writeAllowed(ref, key)), pos)
 	}
 }
 
@@ -859,12 +894,12 @@ func (fr *Frame) appendOp(c *ssa.CallCommon, args []Val, st *State, pos token.Po
 		return tv(s)
 	}
 	// frame: in-place append writes into the existing backing array
-	if fx.contract != nil && fx.contract.Flags["pure"] && !fx.contract.Flags["trusted"] {
+	if fx.perWrite() {
 		label := "fresh-write"
 		if fr.site != "" {
 			label += "@" + fr.site
 		}
-		fx.oblige(st, "frame", label+":"+fx.eng.snippetNode(pos, fr.fn, nil), Implies(And(fits, Gt(n, Int(0))), Gt(SlBase(s), fx.entry.wm)), pos)
+		fx.oblige(st, "frame", label+":"+fx.eng.snippetNode(pos, fr.fn, nil), Implies(And(fits, Gt(n, Int(0))), fx.writeAllowed(SlBase(s), key)), pos)
 	}
 	fresh := fx.alloc(st)
 	newCap := fx.ctx.Fresh("app.cap", SInt)
@@ -1111,5 +1146,55 @@ func (fr *Frame) anchoredAsserts(name string, c *ssa.CallCommon, st *State, pos 
 			continue
 		}
 		fx.oblige(st, "assert", fmt.Sprintf("%s@%s", label, lastSeg(name)), g, pos)
+	}
+}
+
+
+// ghostAnchors applies ghostset / ghostclear directives anchored at the given event ("call:<name>", "mapupdate:<type>", "lookup:<type>").
+func (fr *Frame) ghostAnchors(event string, st *State) {
+	fx := fr.fx
+	if !fr.top || fx.contract == nil {
+		return
+	}
+	if os.Getenv("GOVC_DEBUG") != "" {
+		fmt.Fprintf(os.Stderr, "event %s\n", event)
+	}
+	for _, g := range fx.contract.GhostSets {
+		if globMatch(g.Glob, event) {
+			st.ghost[g.Label] = True
+		}
+	}
+	for _, g := range fx.contract.GhostClrs {
+		if globMatch(g.Glob, event) {
+			st.ghost[g.Label] = False
+		}
+	}
+}
+
+// eventAsserts checks `assert @<event-glob> expr` clauses for non-call events (map reads / writes).
+func (fr *Frame) eventAsserts(event string, st *State, pos token.Pos) {
+	fx := fr.fx
+	if !fr.top || fx.contract == nil {
+		return
+	}
+	for _, a := range fx.contract.Asserts {
+		if strings.HasPrefix(a.Anchor, "call:") || !globMatch(a.Anchor, event) {
+			continue
+		}
+		env := fr.specEnv(st, nil, nil)
+		g, err := env.evalBool(a.Clause.Expr)
+		if err != nil {
+			fx.unsupported = append(fx.unsupported, fmt.Sprintf("assert @%s: %v", a.Anchor, err))
+			continue
+		}
+		label := a.Clause.Label
+		if label == "" {
+			label = "assert"
+		}
+		kind := event
+		if i := strings.Index(kind, ":"); i >= 0 {
+			kind = kind[:i]
+		}
+		fx.oblige(st, "assert", label+"@"+kind, g, pos)
 	}
 }
